@@ -75,6 +75,8 @@ def main():
                 env["VERIF_SEED"] = seed
             if sd is not None:
                 rc, out = sh(f"git apply {VERIF}/seeded/{sd}/patch.diff", cwd=f"{w}/repo")
+                if rc != 0:   # context drifted through a later fix: commit in /repo - merge instead
+                    rc, out = sh(f"git apply --3way {VERIF}/seeded/{sd}/patch.diff && git reset -q", cwd=f"{w}/repo")
                 if rc != 0:
                     results[job] = {"exit": None, "error": "patch does not apply: " + out[-200:]}
                     return
@@ -90,6 +92,11 @@ def main():
                 res["tail"] = out[-1500:]
             results[job] = res
             caught = rc == 1 and vio
+            sup = sd and json.load(open(os.path.join(VERIF, "seeded", sd, "meta.json"))).get("verif", {}).get("superseded")
+            if sup:
+                res["superseded"] = True
+                print(f"{sd}: superseded (no longer breaks the property): {'silent-ok' if rc == 0 and not vio else 'FALSE-ALARM(exit %s)' % rc}", flush=True)
+                return
             kind = ("no-failing-input-found" if caught and "no-failing-input-found" in vio[0] else ("failing-input" if caught else f"MISSED(exit {rc})")) if sd else ("clean-ok" if rc == 0 and not vio else f"FALSE-ALARM(exit {rc})")
             print(f"{sd or pid + ' (unchanged tree)'}: {kind} {details[0][:160] if details else ''}", flush=True)
         finally:
@@ -110,6 +117,11 @@ def main():
         if seed is None and arg("--check-prop") is None:
             meta.setdefault("verif", {}).setdefault("checks", {})[tier] = {pid: res2}
             json.dump(meta, open(mp, "w"), indent=1)
+        if res.get("superseded"):
+            if res.get("exit") != 0:
+                bad += 1
+                print(f"==== {sd}: superseded seed, but the check raised an alarm (exit {res.get('exit')})")
+            continue
         if not (res.get("exit") == 1 and res.get("violation_line")):
             bad += 1
             print(f"==== {sd}: not reported (exit {res.get('exit')}) {res.get('error', '')}\n{res.get('tail', '')[-600:]}")
